@@ -82,4 +82,3 @@ Proof.
   intros HA Hl HB Ht.
   exact (TT_o_M_subst_o_p_spectral_R R I.type rel NumR NumI NumRI_R n n (nat_R_refl n) A Ai HA lam Lam Hl B Bi HB t Ti Ht).
 Qed.
-Print Assumptions expQt_enclosed.
